@@ -5,7 +5,7 @@
    names, types, scopes and keys are universally quantified with no bound.
    history_wf = the configured stale window (initially and after every reload) is not negative. *)
 From Coq Require Import List ZArith NArith Bool.
-From Dae Require Import C08_Spec C08_Model C08_Proofs C08_Ttl C08_Lru C08_LruStore C08_Keys C08_RefreshProofs C08_LifecycleProofs.
+From Dae Require Import C08_Spec C08_Model C08_Proofs C08_Ttl C08_Lru C08_LruStore C08_Keys C08_RefreshProofs C08_LifecycleProofs C08_Recency.
 Import ListNotations.
 Open Scope Z_scope.
 
@@ -87,23 +87,24 @@ Print Assumptions C08_single_refresh_loadstore_refuted.
 (* The refresh life cycle with replacement entries, at atomic granularity.  The flag lives on the entry; a
    thread is a lookup (map Load, then the CAS on the entry it found) followed, when it claimed, by the refresh
    it starts: the upstream work ends with no answer or with dnsCache.Store of a new entry (already stale: TTL 0
-   or fixed_domain_ttl 0, both stored by the insert path; or fresh), then backgroundRefresh's deferred block.
-   Full statement: under every schedule at most one refresh of the key is in flight (claimed, upstream work
-   not ended).  It is FALSE of the code, whose deferred block looks the key up again and clears the flag of
-   whatever entry the map holds then (VCurrent): R1 stores an already-stale E2, a second lookup claims E2 (R2 in
-   flight), R1's deferred block clears E2's flag, a third lookup claims E2 again - R2 and R3 in flight. *)
-Definition C08_refresh_lifecycle_full : Prop :=
-  forall (outcomes : list outcome) (sched : list nat), trun_ok VCurrent (tinit outcomes) sched = true.
-Theorem C08_refresh_lifecycle_refuted : ~ C08_refresh_lifecycle_full.
-Proof. exact lifecycle_full_refuted_proof. Qed.
-Print Assumptions C08_refresh_lifecycle_refuted.
-(* witness: threads [stores a stale answer; fails; fails], schedule 0 0 0 1 1 0 0 0 2 2 *)
-(* Partial: when the deferred block clears only the entry that was claimed, and only while the map still holds
-   that entry (VClaimedIfCurrent), the clause holds for any number of threads, any outcomes, every schedule. *)
-Theorem C08_refresh_lifecycle_partial :
+   or fixed_domain_ttl 0, both stored by the insert path; or fresh), then backgroundRefresh's deferred block,
+   which looks the key up again and releases the slot only when the map still holds the entry this refresh
+   claimed (`cache == claimed`, VClaimedIfCurrent).  For any number of threads, any outcomes and EVERY schedule of
+   the atomic operations, at most one refresh of the key is in flight (claimed, upstream work not ended). *)
+Theorem C08_refresh_lifecycle :
   forall (outcomes : list outcome) (sched : list nat), trun_ok VClaimedIfCurrent (tinit outcomes) sched = true.
 Proof. exact lifecycle_partial_proof. Qed.
-Print Assumptions C08_refresh_lifecycle_partial.
+Print Assumptions C08_refresh_lifecycle.
+
+(* A deferred block that releases whatever entry the map holds (VCurrent, the code before the repair) does NOT
+   have the property: R1 stores an already-stale E2, a second lookup claims E2 (R2 in flight), R1's deferred block
+   clears E2's flag, a third lookup claims E2 again - R2 and R3 in flight.  The variant stays in the model so that
+   a source of that shape is still followed step by step, and reported.
+   Witness: threads [stores a stale answer; fails; fails], schedule 0 0 0 1 1 0 0 0 2 2. *)
+Theorem C08_refresh_lifecycle_current_refuted :
+  ~ (forall (outcomes : list outcome) (sched : list nat), trun_ok VCurrent (tinit outcomes) sched = true).
+Proof. exact lifecycle_full_refuted_proof. Qed.
+Print Assumptions C08_refresh_lifecycle_current_refuted.
 
 (* TTL truthfulness of the in-place fill: the shown TTL never exceeds max 1 (floor remaining) + slack. *)
 Theorem C08_fill_ttl_truthful : forall d now, now < d -> ttl_ok d now (ttl_from_deadline d now) = true.
@@ -180,6 +181,17 @@ Theorem C08_janitor_lru :
         /\ (forall ke e ks s0, In (ke, e) st1 -> ~ In (ke, e) st' -> In (ks, s0) st' -> e_last e <= e_last s0)).
 Proof. exact janitor_lru_proof. Qed.
 Print Assumptions C08_janitor_lru.
+
+(* What the LRU theorems order by is the instant of last use, across reloads: in every reachable cache - after any
+   history with any number of reload clones and in-place reconfigurations - the lastAccess of the entry cached
+   under a key is the instant of the most recent insert or lookup of that key (a lookup that is not answered
+   removes the entry, so for a cached entry these are the answered lookups); a reload never changes it.
+   With C08_janitor_lru: after a reload the size limit still keeps the most recently used entries. *)
+Theorem C08_last_access_is_last_use :
+  forall (c : cfg) (h : list timed) (key : bytes) (e : entry),
+    mfind key (m_store (fst (m_run c h))) = Some e -> last_touch h key None = Some (e_last e).
+Proof. exact last_access_is_last_use_proof. Qed.
+Print Assumptions C08_last_access_is_last_use.
 
 (* Key scoping.  Full statement: two questions get the same cache-key string iff their lower-cased fully
    qualified names, types and scope texts are equal.  It is false over arbitrary byte strings: a name read
